@@ -399,7 +399,18 @@ def apply_move(m: dict, heap: list, colmap: dict, pool: dict | None = None):
         if v == "cross_join":
             return t >> cross_join(r, **kw)
         on = [x["n"] if x["k"] == "str" else b.build(x, top=True) for x in m["on"]]
-        if len(on) == 1:
+        if pool is not None:
+            # the caller keeps ONE list object for this `on` argument (fingerprinted before / after every call: C10)
+            import json as _json
+
+            key = "onlist|" + _json.dumps(m["on"], sort_keys=True) + "|" + ",".join(str(getattr(x, "_fn_id", x)) for x in on)
+            if key not in pool:
+                from . import immut as _IM
+
+                pool[key] = on
+                pool.setdefault("__created__", {})[key] = _IM.fp_expr(list(on))
+            on = pool[key]
+        elif len(on) == 1:
             on = on[0]
         return t >> join(r, on, m["how"], **kw)
     if v == "transfer":
